@@ -58,7 +58,8 @@ def zoneLoop (lim : Limits) (f : Fields) (z : Zone) (prevSec prevOff : Int) : Na
 
 /-- `CronTrigger.NextFireTime(prev)` -/
 def nextFire (lim : Limits) (f : Fields) (z : Zone) (prevNs : Int) : Outcome :=
-  let prevSec := Int.tdiv prevNs 1000000000
+  -- the whole second prev lies in: floor division (Int `/` floors for a positive divisor), also before 1970
+  let prevSec := prevNs / 1000000000
   let prevOff := z.offsetAt prevSec
   zoneLoop lim f z prevSec prevOff csmFuel (Civil.ofSeconds (prevSec + prevOff))
 
